@@ -391,6 +391,34 @@ func c12Pair(r *lib.Rng, maxLen int) ([]byte, []byte, string) {
 	case k == 3: // identical
 		o, a := c12Content(r, size())
 		return o, append([]byte(nil), o...), "same/" + a
+	case k == 4 || k == 5:
+		// old = P Q Z Q' R, new = P Q R with Q' a slightly damaged copy of Q: the forward extension
+		// of the match P Q and the backward extension of the match R overlap on Q, and the overlap
+		// has to be split between them (lens > 0 in analyzeBlock)
+		seg := func(lo, hi int) []byte { return r.Bytes(r.Range(lo, hi)) }
+		P, Q, Z, R := seg(0, 12), seg(6, 24), seg(1, 10), seg(10, 20)
+		Q2 := append([]byte(nil), Q...)
+		for j := r.Range(1, 2); j > 0; j-- {
+			Q2[r.Intn(len(Q2)/2+1)] ^= byte(r.Range(1, 255))
+		}
+		if r.Chance(1, 3) { // damage the first copy instead
+			Q, Q2 = Q2, Q
+		}
+		var o, n []byte
+		for _, x := range [][]byte{P, Q, Z, Q2, R} {
+			o = append(o, x...)
+		}
+		base := Q
+		if r.Bool() {
+			base = Q2
+		}
+		for _, x := range [][]byte{P, base, R} {
+			n = append(n, x...)
+		}
+		if len(o) > maxLen || len(n) > maxLen {
+			return o[:min(len(o), maxLen)], n[:min(len(n), maxLen)], "neardup/cut"
+		}
+		return o, n, "neardup/entropy"
 	default:
 		o, a := c12Content(r, size())
 		n, t := c12Derive(r, o, maxLen)
@@ -398,7 +426,10 @@ func c12Pair(r *lib.Rng, maxLen int) ([]byte, []byte, string) {
 	}
 }
 
-func c12Partitions(r *lib.Rng, oldLen, newLen int) int {
+func c12Partitions(r *lib.Rng, oldLen, newLen int, class string) int {
+	if strings.HasPrefix(class, "neardup") && r.Chance(2, 3) {
+		return r.Intn(2) // one scan block: the overlap structure stays intact
+	}
 	switch r.Intn(8) {
 	case 0:
 		return 0
@@ -590,7 +621,7 @@ func c12DiffCases(c *Ctx, run *c12Runner) error {
 		}
 	}
 	// lengths up to 64 (a few up to 160) over small alphabets / periodic / derived: in-Coq suffix array
-	n := c.N(500, 5000)
+	n := c.N(400, 5000)
 	for i := 0; i < n; i++ {
 		cr := r.Fork()
 		maxLen := 64
@@ -598,21 +629,46 @@ func c12DiffCases(c *Ctx, run *c12Runner) error {
 			maxLen = 160
 		}
 		o, nw, cl := c12Pair(cr, maxLen)
-		cs := &c12Case{old: o, nw: nw, partitions: c12Partitions(cr, len(o), len(nw)), concurrency: cr.Range(-1, 4), procs: []int{0, 1, 2, 8}[cr.Intn(4)],
+		cs := &c12Case{old: o, nw: nw, partitions: c12Partitions(cr, len(o), len(nw), cl), concurrency: cr.Range(-1, 4), procs: []int{0, 1, 2, 8}[cr.Intn(4)],
 			reuse: cr.Chance(1, 3), class: "small/" + c12ClassHead(cl), group: "bsd"}
 		if err := c12RunDiffCase(c, run, cs); err != nil {
 			return err
 		}
 	}
 	// up to 4 KiB: tabulated search
-	n = c.N(40, 400)
+	n = c.N(32, 400)
 	for i := 0; i < n; i++ {
 		cr := r.Fork()
 		maxLen := []int{300, 1024, 4096}[cr.Intn(3)]
 		o, nw, cl := c12Pair(cr, maxLen)
-		cs := &c12Case{old: o, nw: nw, partitions: c12Partitions(cr, len(o), len(nw)), concurrency: cr.Range(-1, 4), procs: []int{0, 1, 2, 8}[cr.Intn(4)],
+		cs := &c12Case{old: o, nw: nw, partitions: c12Partitions(cr, len(o), len(nw), cl), concurrency: cr.Range(-1, 4), procs: []int{0, 1, 2, 8}[cr.Intn(4)],
 			reuse: cr.Chance(1, 3), class: "mid/" + c12ClassHead(cl), group: "bsdt"}
 		if err := c12RunDiffCase(c, run, cs); err != nil {
+			return err
+		}
+	}
+	// two large inputs in every run (oracle only): more scan blocks than workers (13 blocks of
+	// 128 KiB with one partition = 12 workers, so a worker is handed a second block), and an add
+	// string longer than the patcher's 32 KiB copy buffer
+	{
+		cr := r.Fork()
+		o, _ := c12BigContent(cr, 2048)
+		nw := make([]byte, 0, 13*128*1024+600)
+		for len(nw) < 13*128*1024+5 {
+			piece, _ := c12Derive(cr, o, 4096)
+			nw = append(nw, piece...)
+		}
+		if err := c12RunDiffCase(c, run, &c12Case{old: o, nw: nw, partitions: cr.Intn(2), procs: []int{0, 2, 8}[cr.Intn(3)], class: "big/more-blocks-than-workers"}); err != nil {
+			return err
+		}
+		o = cr.Bytes(100*1024 + cr.Intn(1000))
+		nw = append([]byte(nil), o...)
+		d := byte(cr.Range(1, 255))
+		for j := 10000; j < 10000+40000+cr.Intn(20000); j++ {
+			nw[j] += d
+		}
+		nw = append(nw[:70000], nw[70000+cr.Intn(500):]...)
+		if err := c12RunDiffCase(c, run, &c12Case{old: o, nw: nw, partitions: cr.Range(0, 3), class: "big/add-longer-than-copy-buffer"}); err != nil {
 			return err
 		}
 	}
@@ -671,7 +727,7 @@ func c12ClassHead(s string) string {
 
 func c12PatchCases(c *Ctx, run *c12Runner) error {
 	r := c.Rng.Fork()
-	n := c.N(300, 3000)
+	n := c.N(250, 3000)
 	for i := 0; i < n; i++ {
 		cr := r.Fork()
 		var old []byte
